@@ -240,7 +240,8 @@ def _ini_readback(m, tier, seed, out, ob):
     rnd = random.Random(seed)
     boards = sorted(m.BOARD_TO_PLATFORM)
     n = 300 if tier == "thorough" else 60
-    ports = ["COM3", "/dev/ttyUSB0", "/dev/cu.usbmodem14101", "COM10", "a b", "x=y", "p:1", "[x]", "%d", "ü", "#c", ";c", "",
+    ports = ["COM3", "/dev/ttyUSB0", "/dev/cu.usbmodem14101", "COM10", "a b", "x=y", "p:1", "[x]", "%d", "ü", "#c", ";c", "", "rfc2217://host:4000", "socket://10.0.0.7:23",
+             "loop://", "/dev/ttyACM0/", "./tty", "a//b", "net:host:port", "\\\\.\\COM12", "C:/dev/../x",
              " COM3", "COM3 ", "\tCOM3"]
     libsets = [None, [], ["Servo"], ["Servo", "LiquidCrystal", "Servo"], ["", "A", "", "B", "A"], ["A", "B", "C", "B", "A"],
                ["LiquidCrystal_I2C", "LiquidCrystal_I2C"]]
@@ -260,7 +261,13 @@ def _ini_readback(m, tier, seed, out, ob):
             d = base / f"p{runs}"
             d.mkdir()
             before = sorted(str(p) for p in base.rglob("*"))
-            m.write_project(d, src, port, platform=plat, board=board, lib_deps=libs)
+            # lib_deps is annotated Iterable[str]: every third case passes a one-shot iterator / generator / tuple instead of the list
+            given = libs
+            if libs is not None and runs % 3 == 1:
+                given = iter(list(libs))
+            elif libs is not None and runs % 3 == 2:
+                given = (x for x in list(libs)) if runs % 2 else tuple(libs)
+            m.write_project(d, src, port, platform=plat, board=board, lib_deps=given)
             runs += 1
             after = sorted(str(p.relative_to(d)) for p in d.rglob("*"))
             cp = configparser.RawConfigParser()
